@@ -98,7 +98,7 @@ var c15Inventory = map[string]c15Entry{
 	"(*store.ChainDatabase).GetActDatabase#panic(const string)":    {1, "the hash is the parent's (verifyParentHash found it, C02.1) or a block just stored; parent ∈ unconfirmed ∪ {stable} under chainLock"},
 	"(*store.ChainDatabase).GetCandidatesTop#panic(const string)":  {3, "the hash is the parent's (verifyParentHash found it, C02.1): parent ∈ unconfirmed ∪ {stable}, each of which carries a Top list (D26 repaired)"},
 	"(*store.ChainDatabase).blockCommit#panic(const string)":       {3, whyStoreSeq + "; SetStableBlock walks only stored ancestors above the last stable height"},
-	"(*store.RunContext).flush#panic(const string)":                {2, whyLocalDB},
+	"(*store.RunContext).writeFile#panic(const string)":            {2, whyLocalDB},
 	"(*store.SyncFileDB).Get#panic(call fmt.Sprintf)":              {1, "route() indexes the fixed bitcask table built at start-up by the first key byte; never nil after Open"},
 	"store.FileUtilsFlush#panic(const string)":                     {1, whyLocalDB},
 	"store.insert#panic(const string)":                             {3, "pos is computed by the caller's search over the same child list; node is freshly allocated"},
